@@ -142,19 +142,25 @@ func x1c20SplitOp(s, sep []byte) string {
 	return "split " + c20Hex(s) + " " + c20Hex(sep)
 }
 
-// x1c20All calls f on every string over alpha of length <= maxLen (shorter first within a prefix).
+// x1c20All calls f on every string over alpha of length <= maxLen, shorter strings first
+// (so that the first failing case is a smallest one).
 func x1c20All(alpha []byte, maxLen int, f func(s []byte)) {
-	var rec func(cur []byte)
-	rec = func(cur []byte) {
-		f(cur)
-		if len(cur) == maxLen {
+	level := [][]byte{nil}
+	for l := 0; ; l++ {
+		for _, s := range level {
+			f(s)
+		}
+		if l == maxLen {
 			return
 		}
-		for _, b := range alpha {
-			rec(append(append([]byte(nil), cur...), b))
+		var next [][]byte
+		for _, s := range level {
+			for _, b := range alpha {
+				next = append(next, append(append([]byte(nil), s...), b))
+			}
 		}
+		level = next
 	}
-	rec(nil)
 }
 
 var x1c20SmallSeps = []string{",", "\n", ",,", "a,", ""}
